@@ -25,6 +25,7 @@ REQUIRED_THEOREMS = [
     "Acn.C07.zero_for_inactive_rr", "Acn.C07.preprocess_lbOk", "Acn.C07.schedule_feasible",
     "Acn.C07.sim_no_invalid_rate_partial", "Acn.C07.accepts_of_pilot_accepted",
     "Acn.C07.ev_charge_le_requested", "Acn.C07.sim_delivered_le_requested_partial",
+    "Acn.C07.schedule_length", "Acn.C07.sim_period_composition",
 ]
 BUDGET = {"quick": 900, "thorough": 6000, "search": 1200}
 TRUSTED = [
@@ -49,6 +50,9 @@ RULE = ("a case is an infrastructure (2-9 stations on three line pairs, delta-wy
         "limits are drawn relative to the full-load aggregate so that ~60 % of calls have a binding constraint; "
         "the thorough tier first runs an EXHAUSTIVE small scope (2-3 stations x every kind combination x limit grid x "
         "every occupancy x small/large demand x both algorithms x sorts x uninterrupted, ~30 k calls); "
+        "whole simulations without estimator are ALSO run through the composition model (Sim.run with the modelled "
+        "algorithm as scheduler, AcnModel/SimSorted.lean) and compared (pilots, rates, energies, iteration, error); "
+        "constraint-free networks (4 %) and DeadbandEVSE stations (outside the quantifier: modelled, not judged); "
         "non-trivial = some call in which a constraint binds (some session got less than its own upper bound) "
         "or an estimator bound / remaining-demand bound / minimum pilot is the active bound")
 
@@ -67,6 +71,11 @@ def _gen_evse(rng, exact):
     if r < 0.45:
         return {"t": "cont", "min": 0, "max": rng.choice([16, 48, 80])}
     # EVSE(min_rate > 0) rejects pilot 0 (DESIGN §8): outside C07's "continuous-from-zero" quantifier
+    if r < 0.49 and not exact:
+        # DeadbandEVSE: advertised as continuous [6, max] with min_pilot 0; the sorted algorithms treat it as
+        # continuous from 0 and may emit a pilot inside the dead band.  OUTSIDE the property's quantifier:
+        # generated so that the model correspondence covers it, the oracle does not judge its pilots.
+        return {"t": "deadband", "db": 6, "max": 32}
     if r < 0.76:
         return {"t": "finite", "rates": CC}
     if r < 0.95:
@@ -76,6 +85,10 @@ def _gen_evse(rng, exact):
 
 def _max_of(evse):
     return float(max(evse["rates"])) if evse["t"] == "finite" else float(I.num(evse["max"]))
+
+
+def _has_deadband(case):
+    return any(st["evse"]["t"] == "deadband" for st in case["stations"])
 
 
 def _gen_stations(rng, exact, nmin=2, nmax=9):
@@ -91,6 +104,8 @@ def _gen_stations(rng, exact, nmin=2, nmax=9):
 
 def _gen_constraints(rng, stations, load, exact):
     """load: {station: expected full-load amps}. Limits relative to the full-load aggregate."""
+    if rng.random() < 0.04:
+        return []          # constraint-free network (runs since finding F3 was repaired)
     by_line = {l: [s["id"] for s in stations if s["line"] == l] for l in LINE_PHASE}
     ids = [s["id"] for s in stations]
     phase = {s["id"]: math.radians(s["phase"]) for s in stations}
@@ -591,6 +606,9 @@ def _run_sim(case):
     obs["warnings"] = sorted({str(w.message)[:120] for w in wlist if "Invalid schedule" in str(w.message)})
     obs["energies"] = [[ev.session_id, float(ev.requested_energy), float(ev.energy_delivered)] for ev in evs]
     obs["iterations"] = int(sim.iteration)
+    w = min(int(sim.iteration), sim.pilot_signals.shape[1])
+    obs["pilots"] = [[float(x) for x in row[:w]] for row in sim.pilot_signals]
+    obs["rates"] = [[float(x) for x in row[:min(w, sim.charging_rates.shape[1])]] for row in sim.charging_rates]
     return obs
 
 
@@ -618,13 +636,61 @@ def model_request(case, obs):
                                     "est": s["est"], "remaining_time": s["remaining_time"],
                                     "requested": f2b(s["requested"]), "delivered": f2b(s["delivered"]),
                                     "min": f2b(I.num(s["min"])), "max": f2b(I.num(s["max"]))} for s in c["sessions"]]})
-    return {"algo": case["algo"], "sort": case["sort"], "uninterrupted": case["uninterrupted"],
-            "estimate": case["estimate"], "inc": f2b(case["inc"]), "period": f2b(case["period"]),
-            "ramp": {k: f2b(v) for k, v in case["ramp"].items()}, "infra": _infra_wire(obs["infra"]), "calls": calls}
+    req = {"algo": case["algo"], "sort": case["sort"], "uninterrupted": case["uninterrupted"],
+           "estimate": case["estimate"], "inc": f2b(case["inc"]), "period": f2b(case["period"]),
+           "ramp": {k: f2b(v) for k, v in case["ramp"].items()}, "infra": _infra_wire(obs["infra"]), "calls": calls}
+    if case["mode"] == "sim" and not case["estimate"]:
+        # the COMPOSITION: shared simulator model with the modelled algorithm as its scheduler parameter
+        req["simrun"] = {"stations": [{"id": st["id"], "kind": I.kind_wire(st["evse"]), "V": f2b(st["volt"])}
+                                      for st in case["stations"]],
+                         "evs": [I.ev_wire(e) for e in case["evs"]], "recomputes": [], "max_recompute": 1,
+                         "period": f2b(case["period"]), "noise": []}
+    return req
+
+
+def _sim_err_class(e):
+    if e is None:
+        return None
+    if e.startswith("InvalidRate"):
+        return "InvalidRate"
+    if e.startswith("scheduler:ValueError"):
+        return "ValueError"
+    if e.startswith("scheduler:KeyError"):
+        return "KeyError"
+    return e.split(":")[0]
+
+
+def compare_simrun(case, obs, sr):
+    """whole simulation: real Simulator + real algorithm vs Sim model + modelled algorithm (adapter)"""
+    out = []
+    ie = _sim_err_class(obs["sim_err"])
+    if ie != sr["err"]:
+        return [f"simrun: err impl={obs['sim_err']} model={sr['err']}"]
+    if sr.get("fuel_exhausted"):
+        out.append("simrun: model ran out of fuel")
+    if obs["iterations"] != sr["iter"]:
+        out.append(f"simrun: iteration impl={obs['iterations']} model={sr['iter']}")
+        return out
+    n = obs["iterations"]
+    for name in ("pilots", "rates"):
+        for r, (a, m) in enumerate(zip(obs[name], sr[name])):
+            mm = [b2f(x) for x in m[:n]]
+            aa = list(a[:n]) + [0.0] * (n - len(a[:n]))
+            mm = mm + [0.0] * (n - len(mm))
+            for t, (x, y) in enumerate(zip(aa, mm)):
+                if not close(x, y):
+                    out.append(f"simrun: {name}[{r}][{t}] impl={x!r} model={y!r}")
+                    break
+    for (sid, _req, got), me in zip(obs["energies"], sr["evs"]):
+        if sid != me["session"] or not close(got, b2f(me["delivered"])):
+            out.append(f"simrun: delivered {sid} impl={got!r} model={me['session']}:{b2f(me['delivered'])!r}")
+    return out[:6]
 
 
 def compare(case, obs, model):
     out = []
+    if model.get("simrun") is not None:
+        out.extend(compare_simrun(case, obs, model["simrun"]))
     mc = model["calls"]
     if len(mc) != len(obs["calls"]):
         return [f"{len(obs['calls'])} calls vs {len(mc)} model answers"]
@@ -715,8 +781,9 @@ def oracle(case, obs):
         if not c["net_feasible"] or not c["iface_feasible"]:
             fails.append({"kind": "infeasible_schedule_emitted",
                           "detail": f"call {k}: network.is_feasible={c['net_feasible']} interface={c['iface_feasible']} schedule={sched}"})
+        dead = {st["id"] for st in case["stations"] if st["evse"]["t"] == "deadband"}
         for st, ok in c["valid"].items():
-            if not ok:
+            if not ok and st not in dead:
                 fails.append({"kind": "pilot_rejected_by_evse", "detail": f"call {k}: station {st} pilot {sched[st][0]}"})
         for st in ids:
             p = sched[st][0]
@@ -751,7 +818,8 @@ def oracle(case, obs):
     if obs["mode"] == "sim" and case["algo"] != "uncontrolled":
         if obs["sim_err"] is not None and "lower_bounds_infeasible" not in obs["sim_err"]:
             kind = "invalid_rate_error" if "InvalidRate" in obs["sim_err"] else "simulation_exception"
-            fails.append({"kind": kind, "detail": obs["sim_err"]})
+            if not (kind == "invalid_rate_error" and _has_deadband(case)):      # Deadband: outside the quantifier
+                fails.append({"kind": kind, "detail": obs["sim_err"]})
         if obs["warnings"]:
             fails.append({"kind": "infeasible_schedule_warning", "detail": obs["warnings"][0]})
         for sid, req, got in obs["energies"]:
@@ -795,6 +863,14 @@ def features(case, obs):
            f"stations:{len(case['stations'])}", f"calls:{min(len(obs['calls']), 20)}"]
     inf = obs["infra"]
     idx = {s: i for i, s in enumerate(inf["ids"])}
+    out.append("constraints:%s" % ("none" if not inf["M"] else "some"))
+    dead = {st["id"] for st in case["stations"] if st["evse"]["t"] == "deadband"}
+    for c in obs["calls"]:
+        for st in dead:
+            if c["err"] is None and st in c.get("valid", {}):
+                out.append("deadband_pilot:" + ("accepted" if c["valid"][st] else "IN_DEAD_BAND_rejected"))
+    if obs["mode"] == "sim" and dead and obs.get("sim_err") and "InvalidRate" in obs["sim_err"]:
+        out.append("deadband_sim:InvalidRateError")
     out.append("mixed_sign_rows:%d" % sum(1 for r in inf["M"] if any(x < 0 for x in r) and any(x > 0 for x in r)))
     for c in obs["calls"]:
         out.append("err:" + str(c["err"]))
@@ -833,4 +909,5 @@ def features(case, obs):
                 out.append("estimator_has_history")
     if obs["mode"] == "sim":
         out.append("sim_err:" + str(obs["sim_err"])[:30])
+        out.append("simrun_through_adapter:" + str(not case["estimate"]))
     return out
